@@ -162,6 +162,37 @@ def rule_components_form(repo, rep):
   rep.floor('return paths of _components_from_basis_weights', n, 2)
 
 
+def rule_low_rank_condition(repo, rep):
+  R = 'R-GUARD:scml-low-rank-branch'
+  rep.rule(R, 'the branch returning one row per active basis runs exactly '
+           'when there are fewer active bases than features (n_basis < '
+           'n_features with n_basis, n_features = basis.shape of the active '
+           'rows): components_ never has more rows than features')
+  f = repo.get_func('scml._BaseSCML._components_from_basis_weights')
+  shp = [n for n in ast.walk(f.node) if isinstance(n, ast.Assign) and
+         ast.unparse(n.value) == 'basis.shape' and
+         isinstance(n.targets[0], ast.Tuple) and len(n.targets[0].elts) == 2]
+  rets = [r for r in ast.walk(f.node) if isinstance(r, ast.Return)]
+  low = [r for r in rets if 'components_from_metric' not in
+         ast.unparse(r.value)]
+  if not shp or len(low) != 1:
+    rep.unknown(R, 'scml._BaseSCML._components_from_basis_weights', site(f),
+                'shape unpacking / low-rank return not recognised')
+    return
+  nb, nf = [e.id for e in shp[0].targets[0].elts]
+  conds = astutil.path_condition(f.node, low[0])
+  want = astutil.norm_atom(ast.parse('%s < %s' % (nb, nf), mode='eval').body)
+  if conds == [want]:
+    rep.derived(R, 'scml._BaseSCML._components_from_basis_weights',
+                site(f, low[0]))
+  else:
+    rep.refuted(R, 'scml._BaseSCML._components_from_basis_weights',
+                site(f, low[0]), 'the one-row-per-basis transformation is '
+                'returned under %s, documented %s < %s: with that many '
+                'active bases components_ has more rows than features'
+                % (conds, nb, nf))
+
+
 def rule_lda_normalised(repo, rep):
   R = 'R-FLOW:scml-lda-bases-normalised'
   rep.rule(R, 'every row block written into the LDA basis passed through '
@@ -297,6 +328,7 @@ def rule_update_formulas(repo, rep):
 def check(repo, rep, tier):
   rule_weights_nonneg(repo, rep)
   rule_components_form(repo, rep)
+  rule_low_rank_condition(repo, rep)
   rule_lda_normalised(repo, rep)
   rule_update_formulas(repo, rep)
   # option paths executable (C03(7)) and RNG discipline (C17), SCML only
